@@ -216,6 +216,44 @@ ssize_t pwrite64(int fd, const void *b, size_t n, off64_t o) {
 }
 ssize_t writev(int fd, const struct iovec *v, int c) { REAL(writev); init(); fdpoint("write", fd); return real(fd, v, c); }
 
+/* $RV_SHIM_PROBE_DELAY_US=<us> : the log follower (process name "redo-log") sleeps that long before every non-blocking
+ * lock attempt fcntl(F_SETLK) -- its "is the target still being built?" probe.  This widens the window between its last
+ * read of a log file and the probe from a few instructions to milliseconds; it never makes an outcome wrong. */
+static long probe_delay_us = -1;
+static int is_follower = -1;
+static void probe_delay(int cmd) {
+    if (cmd != F_SETLK || active != 1 || busy) return;
+    if (probe_delay_us < 0) {
+        const char *d = getenv("RV_SHIM_PROBE_DELAY_US");
+        probe_delay_us = d ? atol(d) : 0;
+    }
+    if (probe_delay_us <= 0) return;
+    if (is_follower < 0) {
+        char comm[32] = {0};
+        int (*ropen)(const char *, int, ...) = dlsym(RTLD_NEXT, "open");
+        ssize_t (*rread)(int, void *, size_t) = dlsym(RTLD_NEXT, "read");
+        int fd = ropen("/proc/self/comm", O_RDONLY);
+        if (fd >= 0) { rread(fd, comm, sizeof comm - 1); close(fd); }
+        is_follower = strncmp(comm, "redo-log", 8) == 0;
+    }
+    if (is_follower) usleep((useconds_t)probe_delay_us);
+}
+int fcntl(int fd, int cmd, ...) {
+    static int (*real)(int, int, ...);
+    if (!real) real = dlsym(RTLD_NEXT, "fcntl");
+    va_list ap; va_start(ap, cmd); void *arg = va_arg(ap, void *); va_end(ap);
+    if (cmd == F_SETLK) { init(); probe_delay(cmd); }
+    return real(fd, cmd, arg);
+}
+int fcntl64(int fd, int cmd, ...) {
+    static int (*real)(int, int, ...);
+    if (!real) real = dlsym(RTLD_NEXT, "fcntl64");
+    if (!real) real = dlsym(RTLD_NEXT, "fcntl");
+    va_list ap; va_start(ap, cmd); void *arg = va_arg(ap, void *); va_end(ap);
+    if (cmd == F_SETLK) { init(); probe_delay(cmd); }
+    return real(fd, cmd, arg);
+}
+
 #include <poll.h>
 ssize_t read(int fd, void *b, size_t n) {
     REAL(read);
